@@ -283,7 +283,7 @@ pub fn stray_wake(timeout_us: u64) -> i64 {
         let a = WAIT_ADDR.load(Ordering::SeqCst);
         let tid = WAIT_TID.load(Ordering::SeqCst);
         if a != 0 && tid != 0 && sys::parked_in_futex(tid, a) {
-            let r = sys::futex_wake(a, 1);
+            let r = sys::futex_wake_shared(a, 1);
             if r >= 1 {
                 Ev::new("stray_wake").u("addr", a as u64).i("woken", r as i64).emit();
                 return r as i64;
